@@ -17,7 +17,10 @@ EPOCH = 1000  # file timestamps are EPOCH + grid time; the loader must shift the
 ANNO = ["anno_fwd", "anno_bwd", "anno_opt", "anno_misc"]
 NAMES = {
     "A": ANNO,
-    "P": ["void kern_a(float*)", "kern_b", "void at::native::elementwise<float>(int)", "sm80_gemm"],
+    "P": ["void kern_a(float*)", "kern_b", "void at::native::elementwise<float>(int)", "sm80_gemm",
+          # a computation kernel whose *shortened* display name (return type and arguments stripped) would read as a
+          # communication kernel: only the real name decides the type
+          "void ncclKernel_lookalike(int)"],
     "M": ["ncclKernel_AllReduce_RING_LL_Sum_float(ncclWorkElem)", "ncclDevKernel_AllGather_RING(ncclDevComm*)",
           "ncclKernel_ReduceScatter", "ncclKernel_SendRecv"],
     "Y": ["Memcpy DtoD (Device -> Device)", "Memcpy HtoD (Pageable -> Device)", "Memset (Device)",
@@ -47,14 +50,17 @@ def item_event(item: Sequence[Any], corr: int) -> Dict[str, Any]:
     return kineto.kernel(name, EPOCH + s, e - s, stream, corr)
 
 
-def events_for(items: Sequence[Sequence[Any]], with_launch: bool = True, no_corr: bool = False) -> List[Dict[str, Any]]:
+def events_for(items: Sequence[Sequence[Any]], with_launch: bool = True, no_corr: bool = False,
+               spread: bool = False) -> List[Dict[str, Any]]:
     """entry 0 = a host operator at EPOCH; then per item (launch call,) activity.
-    no_corr: the activities carry no correlation id at all (an optional field; nothing launches them in the file)"""
+    no_corr: the activities carry no correlation id at all (an optional field; nothing launches them in the file)
+    spread: the launch calls are issued one after the other before EPOCH instead of all at EPOCH"""
     evs = [kineto.cpu_op("aten::root", EPOCH, 1)]
     corr = 10
-    for it in items:
+    n = len(items)
+    for k, it in enumerate(items):
         if with_launch and not no_corr:
-            evs.append(kineto.runtime("cudaLaunchKernel", EPOCH, 1, corr))
+            evs.append(kineto.runtime("cudaLaunchKernel", EPOCH - 2 * (n - k) if spread else EPOCH, 1, corr))
         e = item_event(it, corr)
         if no_corr:
             e["args"].pop("correlation", None)
